@@ -3,7 +3,9 @@
 The real methods SetType.contains / add / remove, MapType.get / contains / update and check_constraints (literal
 validation) are interpreted by PyVC on collections of CONCRETE size n (0..4, thorough 0..6) whose keys are int values
 with SYMBOLIC payloads constrained to be strictly increasing (well-formedness = the representation invariant), for a
-SYMBOLIC operand key.  Obligations (all key values):
+SYMBOLIC operand key.  Stored values and the new value of an update are OPAQUE objects (`GVal`): only their identity can be
+used and the truthiness of each is a free boolean (a value may be "", False, 0x, {} — or not), so presence can only be decided by
+`is not None`.  Obligations (all key values, all truthiness assignments):
     well_formed(result)                      strictly increasing, no duplicates — hence preserved along ANY history by induction
     view' == view ∪ {x} / view \\ {x} / view[k := v] / view \\ {k};   prev == view[k];   all other entries untouched
     contains / get agree with the view;   the operand collection is not modified
@@ -33,6 +35,23 @@ def kval(x):
     return Z(x.f['value']) if isinstance(x, Obj) else z3.IntVal(int(x))
 
 
+class GVal:
+    """opaque stored value.  The container code may only keep / drop / move it (checked by identity); its truthiness is a free
+    boolean of its own (the map value may be an empty string, False, an empty collection ... or a truthy one): code that decides
+    presence by truthiness instead of `is not None` forks on it and fails on the falsy side."""
+    __pyvc_symbolic__ = True
+
+    def __init__(self, e, name):
+        self.name = name
+        self.truthy = e.bool(f'{name}.truthy')
+
+    def __pyvc_truth__(self, eng):
+        return self.truthy
+
+    def __repr__(self):
+        return f'<value {self.name}>'
+
+
 def mk_set(e, n):
     T = _T()
     cls = T.SetType.create_type(args=[T.IntType])
@@ -50,8 +69,9 @@ def mk_map(e, n):
     ks = [e.int(f'k{i}') for i in range(n)]
     for a, b in zip(ks, ks[1:]):
         e.assume(a.e < b.e)
-    # stored values include FALSY ones (empty string): presence must be decided by `is not None`, never by truthiness
-    vals = [T.StringType('' if i % 2 == 0 else f'v{i}') for i in range(n)]
+    # stored values are opaque with a free truthiness each (was: "" at even, 'v<i>' at odd positions — a fixed pattern):
+    # presence must be decided by `is not None`, never by truthiness
+    vals = [GVal(e, f'v{i}') for i in range(n)]
     m = Obj(cls)
     m.f['items'] = [(ikey(k), v) for k, v in zip(ks, vals)]
     return m, [k.e for k in ks], vals
@@ -106,7 +126,7 @@ def h_map(op, n, remove):
         xo = ikey(x)
         found = [decide(e, x.e == k) for k in ks]
         pos = sum(1 for k in ks if decide(e, k < x.e))
-        newv = None if remove else T.StringType('new')
+        newv = None if remove else GVal(e, 'new')            # the new value may be falsy too (was always the truthy 'new')
         tag = f'MapType.{op}[n={n}{",remove" if remove and op == "update" else ""}]'
         try:
             if op == 'update':
@@ -152,7 +172,7 @@ def h_constraints(kind, n):
             items = [ikey(k) for k in ks]
         else:
             cls = T.MapType.create_type(args=[T.IntType, T.StringType])
-            items = [(ikey(k), T.StringType(f'v{i}')) for i, k in enumerate(ks)]
+            items = [(ikey(k), GVal(e, f'v{i}')) for i, k in enumerate(ks)]      # literal validation looks at keys only
         strictly = z3.And(*[a.e < b.e for a, b in zip(ks, ks[1:])]) if n > 1 else z3.BoolVal(True)
         tag = f'{"SetType" if kind == "set" else "MapType"}.check_constraints[n={n}]'
         try:
@@ -173,6 +193,13 @@ def job(kind, op, n, remove=False):
 
 
 # ------------------------------------------------------------------------------- native replay
+def _sv(case, i):
+    """the string standing for opaque value i in a native replay: empty (falsy) iff the counter-model says so"""
+    name = i if isinstance(i, str) else f'v{i}'
+    t = case.get(f'{name}.truthy', True)
+    return name if (t is True or str(t) == 'True') else ''
+
+
 def native(case):
     T = _T()
     kind, op, n = case['kind'], case['op'], case['n']
@@ -185,7 +212,7 @@ def native(case):
             items = [T.IntType(k) for k in ks]
         else:
             cls = T.MapType.create_type(args=[T.IntType, T.StringType])
-            items = [(T.IntType(k), T.StringType(f'v{i}')) for i, k in enumerate(ks)]
+            items = [(T.IntType(k), T.StringType(_sv(case, i))) for i, k in enumerate(ks)]
         try:
             cls.check_constraints(items)
             ok = True
@@ -203,23 +230,24 @@ def native(case):
         r = getattr(s, op)(T.IntType(x))
         got = [int(i) for i in r.items]
         return got != ref or [int(i) for i in s.items] != ks, f'set {ks} {op} {x} = {got}, reference {ref}'
-    m = T.MapType.create_type(args=[T.IntType, T.StringType])([(T.IntType(k), T.StringType('' if i % 2 == 0 else f'v{i}')) for i, k in enumerate(ks)])
-    ref = {k: ('' if i % 2 == 0 else f'v{i}') for i, k in enumerate(ks)}
+    m = T.MapType.create_type(args=[T.IntType, T.StringType])([(T.IntType(k), T.StringType(_sv(case, i))) for i, k in enumerate(ks)])
+    ref = {k: _sv(case, i) for i, k in enumerate(ks)}
     if op == 'get':
         g = m.get(T.IntType(x))
         return (str(g) if g is not None else None) != ref.get(x), f'map {ks} get {x} = {g!r}'
     if op == 'contains':
         return bool(m.contains(T.IntType(x))) != (x in ref), f'map {ks} contains {x}'
     remove = case.get('remove', False)
-    prev, res = m.update(T.IntType(x), None if remove else T.StringType('new'))
+    new = _sv(case, 'new')
+    prev, res = m.update(T.IntType(x), None if remove else T.StringType(new))
     want_prev = ref.get(x)
     if remove:
         ref.pop(x, None)
     else:
-        ref[x] = 'new'
+        ref[x] = new
     got = [(int(k), str(v)) for k, v in res.items]
     return got != sorted(ref.items()) or (str(prev) if prev is not None else None) != want_prev, \
-        f'map {ks} update {x} -> {"None" if remove else "new"}: {got} prev={prev!r}; reference {sorted(ref.items())} prev={want_prev!r}'
+        f'map {dict(zip(ks, [_sv(case, i) for i in range(n)]))} update {x} -> {"None" if remove else repr(new)}: {got} prev={prev!r}; reference {sorted(ref.items())} prev={want_prev!r}'
 
 
 def replay(case):
@@ -231,7 +259,8 @@ def run_P(ck):
     for f in (T.SetType.contains, T.SetType.add, T.SetType.remove, T.SetType.check_constraints, T.MapType.get, T.MapType.contains,
               T.MapType.update, T.MapType.check_constraints):
         ck.function(f)
-    ck.assume('keys are int values (symbolic payloads); the int order is total (composite keys: C03 order laws + bounded part)')
+    ck.assume('keys are int values (symbolic payloads); the int order is total (composite keys: C03 order laws + bounded part); '
+              'map values are opaque objects with a free truthiness each (stored values and the value written)')
     ck.assume('sorted() = stable insertion sort by the elements\' own <; set() = deduplication by == with a consistent __hash__ (CPython, given a strict weak order)')
     ck.assume('preservation of well-formedness by every operation gives the property for histories of any length (induction over the history)')
     ck.trust('PyVC encoding of the Python subset (DESIGN.md 3.2)')
